@@ -4,6 +4,7 @@ import DaeVerif.C03.Janitor
 import DaeVerif.C03.Dae0
 import DaeVerif.C03.Consumer
 import DaeVerif.C03.Pressure
+import DaeVerif.C03.Teardown
 import DaeVerif.Common.Proto
 /-!
 Line-protocol driver for C03.  The SAME op file is read by the native C driver
@@ -22,6 +23,11 @@ structure St where
   /-- the control plane's UDP endpoints with their routing caches, its clock, `udpRouteScopeSensitive` -/
   us : UState := {}
   scope : Bool := false
+  /-- tuning constants read from the code (`cfg` op) -/
+  relay : RelayCfg := {}
+  pressure : PressureCfg := {}
+  /-- `ControlPlane.soMarkFromDae` -/
+  soMark : Nat := 0
 
 def hx (b : Bytes) : String := bytesToHex b
 
@@ -114,17 +120,14 @@ def constTable : List (String × Nat) := [
   ("routingHandoffTimeout", HANDOFF_TIMEOUT),
   ("L4ProtoType_TCP", L4ProtoType_TCP), ("L4ProtoType_UDP", L4ProtoType_UDP),
   ("IpVersionType_4", IpVersionType_4), ("IpVersionType_6", IpVersionType_6),
-  ("UdpRoutingResultCacheTtl", UDP_ROUTING_CACHE_TTL), ("tcpRoutingLookupRetryAttempts", TCP_LOOKUP_RETRY_ATTEMPTS),
-  ("tcpRoutingLookupRetryDelay", TCP_LOOKUP_RETRY_DELAY), ("OutboundControlPlaneRouting", OUTBOUND_CONTROL_PLANE_ROUTING),
-  ("connStateJanitorPressureEnterUsage", PRESSURE_ENTER_USAGE), ("connStateJanitorPressureExitUsage", PRESSURE_EXIT_USAGE),
-  ("connStateJanitorPressureExitRounds", PRESSURE_EXIT_ROUNDS),
+  ("OutboundControlPlaneRouting", OUTBOUND_CONTROL_PLANE_ROUTING),
   ("PACKET_HOST", PACKET_HOST), ("PACKET_OTHERHOST", PACKET_OTHERHOST), ("BPF_F_INGRESS", BPF_F_INGRESS)]
 
 def recStr (r : RResult) : String :=
   s!"{r.outbound}:{r.mark}:{r.must}:{r.dscp}:{hx (fit 6 r.mac)}:{hx (fit 16 r.pname)}:{r.pid}"
 
 def resetSt (st : St) : St :=
-  { last := (0, 0, 0, 0), us := {}, scope := false, w := { connCap := st.w.connCap, handoffCap := st.w.handoffCap, rtrackCap := st.w.rtrackCap }, maps := C02.KMaps.empty }
+  { last := (0, 0, 0, 0), us := {}, scope := false, relay := st.relay, pressure := st.pressure, soMark := st.soMark, w := { connCap := st.w.connCap, handoffCap := st.w.handoffCap, rtrackCap := st.w.rtrackCap }, maps := C02.KMaps.empty }
 
 def handle (st : St) (line : String) : St × String :=
   match words line with
@@ -219,6 +222,11 @@ def handle (st : St) (line : String) : St × String :=
         s!" ev=[{";".intercalate evs}] ovf={w'.ovfUdp}:{w'.ovfTcp}"
       ({ st with w := w', last := (o.mark, o.cb0, o.cb1, proto) }, out)
     | _, _, _, _, _, _, _, _, _, _, _ => (st, "bad-op")
+  | ["cfg", ttl, att, dly, en, ex, rn, sm] =>
+    match ttl.toNat?, att.toNat?, dly.toNat?, en.toNat?, ex.toNat?, rn.toNat?, sm.toNat? with
+    | some ttl, some att, some dly, some en, some ex, some rn, some sm =>
+      ({ st with relay := ⟨ttl, att, dly⟩, pressure := ⟨en, ex, rn⟩, soMark := sm }, "-")
+    | _, _, _, _, _, _, _ => (st, "bad-op")
   | ["scope", v] =>
     match v.toNat? with
     | some v => ({ st with scope := v != 0 }, "-")
@@ -243,10 +251,13 @@ def handle (st : St) (line : String) : St × String :=
       let us := { st.us with ut := st.us.ut + dtms * 1000000 }
       let k := retrieve st.w ⟨sip, dip, sport, dport, l4⟩ (st.w.now + age)
       if l4 = IPPROTO_TCP then
-        ({ st with us := { us with ut := us.ut + tcpConsumerDelay k } },
-          s!"use={recStr (tcpConsumer k)} fresh=- el={tcpConsumerDelay k}")
+        ({ st with us := { us with ut := us.ut + tcpConsumerDelay st.relay k } },
+          s!"use={recStr (tcpConsumer k)} fresh=- el={tcpConsumerDelay st.relay k}")
+      else if dport = 53 then
+        -- DNS ingress fast path
+        ({ st with us := us }, s!"use={recStr (dnsConsumer st.soMark k)} fresh=- el=0")
       else
-        let x := udpConsumer st.scope us (sip, sport) (dip, dport) k
+        let x := udpConsumer st.relay st.scope us (sip, sport) (dip, dport) k
         ({ st with us := x.u }, s!"use={recStr x.rr} fresh={boolStr x.fresh} el=0")
     | _, _, _, _, _, _, _ => (st, "bad-op")
   | ["peer", mask] =>
@@ -292,11 +303,20 @@ def handle (st : St) (line : String) : St × String :=
       let hdels := ((st.w.handoff.filter (janitorDeletesHandoff t)).map fun p => hx (encKey p.1)).mergeSort (fun a b => a ≤ b)
       (st, s!"del=[{";".intercalate dels}] hdel=[{";".intercalate hdels}]")
     | _, _ => (st, "bad-op")
+  | ["rel", sip, sport, dip, dport] =>
+    -- the userspace endpoint of this UDP pair is closed and was its last owner: ReleaseUdpConnStateTuples
+    match hexToNat? sip, sport.toNat?, hexToNat? dip, dport.toNat? with
+    | some sip, some sport, some dip, some dport =>
+      let k : Key := ⟨sip, dip, sport, dport, IPPROTO_UDP⟩
+      let w' := releaseUdp st.w k
+      let gone := ((st.w.conn.filter fun p => (alookup w'.conn p.1).isNone).map fun p => hx (encKey p.1)).mergeSort (fun a b => a ≤ b)
+      ({ st with w := w' }, s!"rel=[{";".intercalate gone}]")
+    | _, _, _, _ => (st, "bad-op")
   | ["press", act, below, ov, usage] =>
     -- updateConnStateJanitorPressure: is the next janitor round aggressive?
     match act.toNat?, below.toNat?, ov.toNat?, usage.toNat? with
     | some act, some below, some ov, some usage =>
-      let r := pressureStep ⟨act != 0, below⟩ (ov != 0) usage
+      let r := pressureStep st.pressure ⟨act != 0, below⟩ (ov != 0) usage
       (st, s!"active={boolStr r.active} below={r.below}")
     | _, _, _, _ => (st, "bad-op")
   | ["hoexp", now, last] =>
